@@ -175,6 +175,8 @@ type c11Case struct {
 	Foreign int  `json:"foreign"` // number of foreign hashes mixed into the set
 	Reverse bool `json:"reverse"`
 	Salt    int  `json:"salt"` // varies the transactions
+	// filter mode only: the filter is not loaded (LoadFilter(nil) / Unload): the empty subset, canonical proof
+	Unloaded bool `json:"unloaded,omitempty"`
 }
 
 func minimalTx(i, salt int) *wire.MsgTx {
@@ -213,6 +215,11 @@ func evalC11(c c11Case, o *Obs) error {
 		}
 		for i := 0; i < c.Foreign; i++ {
 			h := chainhash.Hash(hashPair(h32{byte(i), 0xFE}, h32{}))
+			if i%2 == 1 || c.Salt%3 == 0 {
+				// a hash that is not in the block but agrees with one of its transactions in all bytes but one
+				h = chainhash.Hash(leaves[(i*7+c.Salt)%c.N])
+				h[[]int{31, 8, 0, 16, 7, 24}[(c.Salt+i)%6]] ^= 0x40
+			}
 			set = append(set, &h)
 		}
 		if c.Reverse {
@@ -238,6 +245,15 @@ func evalC11(c c11Case, o *Obs) error {
 		mk := func() (*bloom.Filter, *refBloom) {
 			f := bloom.LoadFilter(wire.NewMsgFilterLoad(make([]byte, 20000), 10, uint32(c.Salt), wire.BloomUpdateNone))
 			m := newRefBloom(20000, 10, uint32(c.Salt), 0)
+			if c.Unloaded {
+				o.Class("C11:filter-not-loaded")
+				m.loaded = false
+				if f = bloom.LoadFilter(nil); c.Salt%2 == 0 {
+					f = bloom.LoadFilter(wire.NewMsgFilterLoad(bytes.Repeat([]byte{0xff}, 8), 1, 0, wire.BloomUpdateNone))
+					f.Unload()
+				}
+				return f, m
+			}
 			for i, ch := range chosen {
 				if ch {
 					f.AddHash((*chainhash.Hash)(&leaves[i]))
@@ -383,6 +399,9 @@ func msgEqual(a, b *wire.MsgMerkleBlock) bool {
 func genC11(t *rapid.T) c11Case {
 	c := c11Case{Salt: rapid.IntRange(0, 1000).Draw(t, "salt")}
 	c.Mode = rapid.SampledFrom([]string{"txnset", "txnset", "filter"}).Draw(t, "mode")
+	if c.Mode == "filter" && rapid.IntRange(0, 7).Draw(t, "unloaded") == 0 {
+		c.Unloaded = true
+	}
 	switch rapid.IntRange(0, 9).Draw(t, "ncls") {
 	case 0:
 		c.N = rapid.IntRange(66, 4000).Draw(t, "nbig")
@@ -428,7 +447,7 @@ func genC11(t *rapid.T) c11Case {
 		}
 	}
 	if c.Mode == "txnset" {
-		c.Foreign = rapid.IntRange(0, 2).Draw(t, "foreign")
+		c.Foreign = rapid.IntRange(0, 3).Draw(t, "foreign")
 		c.Reverse = rapid.Bool().Draw(t, "reverse")
 	}
 	return c
